@@ -5,6 +5,7 @@ import (
 	"go/constant"
 	"go/token"
 	"go/types"
+	"math/big"
 	"strings"
 
 	"golang.org/x/tools/go/ssa"
@@ -38,6 +39,7 @@ func c04(c *Ctx) {
 	c04zrpcClient(c)
 	c04fx(c)
 	c04engine(c)
+	c04serverDeadline(c)
 }
 
 func c04rest(c *Ctx) {
@@ -973,4 +975,207 @@ func onlyCalledFromMethodsOf(c *Ctx, pkg string, f *ssa.Function, typ string) (i
 		}
 	}
 	return n, n > 0
+}
+
+// c04serverDeadline (C04.R6): the connection-level write deadline of the HTTP server is derived from
+// the longest route timeout. net/http arms WriteTimeout when the request is read; if it is shorter
+// than a route's own timeout the connection is cut while that route's handler is still inside its
+// budget — the client sees neither the result nor the 503 (seed r3-C04-2). Two parts: (a) outside
+// the constructor, engine.timeout only ever grows (a store is guarded by `new > current`, or is a
+// max() that includes the current value); (b) WriteTimeout is that value times a factor ≥ 1.
+func c04serverDeadline(c *Ctx) {
+	rule := "C04.R6"
+	isEngineTimeout := func(v ssa.Value) bool {
+		fa, ok := v.(*ssa.FieldAddr)
+		if !ok || fieldNameOf(fa) != "timeout" {
+			return false
+		}
+		pt, ok := fa.X.Type().Underlying().(*types.Pointer)
+		return ok && typeString(pt.Elem()) == "rest.engine"
+	}
+	isLoadOfTimeout := func(v ssa.Value) bool {
+		u, ok := v.(*ssa.UnOp)
+		return ok && u.Op == token.MUL && isEngineTimeout(u.X)
+	}
+	var bad []string
+	stores := 0
+	for _, fn := range c.P.AllFuncs("rest") {
+		for _, b := range fn.Blocks {
+			for _, ins := range b.Instrs {
+				st, ok := ins.(*ssa.Store)
+				if !ok || !isEngineTimeout(st.Addr) {
+					continue
+				}
+				// the constructor initialises a fresh object
+				if _, fresh := st.Addr.(*ssa.FieldAddr).X.(*ssa.Alloc); fresh {
+					continue
+				}
+				stores++
+				okStore := false
+				// max(..., current, ...)
+				if call, ok := st.Val.(*ssa.Call); ok {
+					if bi, ok := call.Call.Value.(*ssa.Builtin); ok && bi.Name() == "max" {
+						for _, a := range call.Call.Args {
+							if isLoadOfTimeout(a) {
+								okStore = true
+							}
+						}
+					}
+				}
+				// guarded by new > current
+				for d := b; d != nil && !okStore; d = d.Idom() {
+					idom := d.Idom()
+					if idom == nil || len(d.Preds) != 1 || d.Preds[0] != idom || len(idom.Instrs) == 0 {
+						continue
+					}
+					ifi, ok := idom.Instrs[len(idom.Instrs)-1].(*ssa.If)
+					if !ok {
+						continue
+					}
+					cmp, ok := ifi.Cond.(*ssa.BinOp)
+					if !ok {
+						continue
+					}
+					onTrue := idom.Succs[0] == d
+					sameNew := func(v ssa.Value) bool {
+						if v == st.Val {
+							return true
+						}
+						// two loads of the same field of the same value (go/ssa does not merge them)
+						a, ok1 := v.(*ssa.Field)
+						b2, ok2 := st.Val.(*ssa.Field)
+						if ok1 && ok2 && a.X == b2.X && a.Field == b2.Field {
+							return true
+						}
+						ua, ok1 := v.(*ssa.UnOp)
+						ub, ok2 := st.Val.(*ssa.UnOp)
+						if ok1 && ok2 {
+							fa, ok3 := ua.X.(*ssa.FieldAddr)
+							fb, ok4 := ub.X.(*ssa.FieldAddr)
+							return ok3 && ok4 && fa.X == fb.X && fa.Field == fb.Field
+						}
+						return false
+					}
+					switch {
+					case sameNew(cmp.X) && isLoadOfTimeout(cmp.Y):
+						okStore = (cmp.Op == token.GTR || cmp.Op == token.GEQ) && onTrue || (cmp.Op == token.LEQ || cmp.Op == token.LSS) && !onTrue
+					case sameNew(cmp.Y) && isLoadOfTimeout(cmp.X):
+						okStore = (cmp.Op == token.LSS || cmp.Op == token.LEQ) && onTrue || (cmp.Op == token.GEQ || cmp.Op == token.GTR) && !onTrue
+					}
+				}
+				if !okStore {
+					bad = append(bad, fmt.Sprintf("%s: %s overwrites engine.timeout with a value that is not known to be at least the current one: a route group registered earlier with a longer timeout is cut off by the server's write deadline", c.P.Pos(st.Pos()), fn.Name()))
+				}
+			}
+		}
+	}
+	sortStrings(bad)
+	o := c.R.Check(len(bad) == 0 && stores >= 1, rule, "rest.engine.timeout#monotone", "outside the constructor engine.timeout only grows: every store is guarded by `new > current` or is max(…, current, …)", "-", strings.Join(bad, "; "), bad, stores)
+	o.Sites = stores
+	// (b) WriteTimeout = factor·timeout, factor ≥ 1
+	f := c.fn(rule, "rest", "(*engine).withTimeout")
+	if f == nil {
+		return
+	}
+	var coef func(v ssa.Value, d int) (*big.Rat, bool)
+	coef = func(v ssa.Value, d int) (*big.Rat, bool) {
+		if d > 8 {
+			return nil, false
+		}
+		if isLoadOfTimeout(v) {
+			return big.NewRat(1, 1), true
+		}
+		switch x := v.(type) {
+		case *ssa.Convert:
+			return coef(x.X, d+1)
+		case *ssa.ChangeType:
+			return coef(x.X, d+1)
+		case *ssa.Phi:
+			var min *big.Rat
+			for _, e := range x.Edges {
+				r, ok := coef(e, d+1)
+				if !ok {
+					return nil, false
+				}
+				if min == nil || r.Cmp(min) < 0 {
+					min = r
+				}
+			}
+			return min, min != nil
+		case *ssa.UnOp:
+			// a local copy `timeout := ng.timeout`
+			if a, ok := x.X.(*ssa.Alloc); ok && x.Op == token.MUL {
+				var only ssa.Value
+				n := 0
+				for _, r := range *a.Referrers() {
+					if s, ok := r.(*ssa.Store); ok && s.Addr == ssa.Value(a) {
+						only = s.Val
+						n++
+					}
+				}
+				if n == 1 {
+					return coef(only, d+1)
+				}
+			}
+		case *ssa.BinOp:
+			kx, okx := x.X.(*ssa.Const)
+			ky, oky := x.Y.(*ssa.Const)
+			rat := func(k *ssa.Const) (*big.Rat, bool) {
+				if k.Value == nil {
+					return nil, false
+				}
+				return ratOf(k.Value)
+			}
+			switch x.Op {
+			case token.MUL:
+				if okx {
+					if k, ok := rat(kx); ok {
+						if r, ok := coef(x.Y, d+1); ok {
+							return new(big.Rat).Mul(k, r), true
+						}
+					}
+				}
+				if oky {
+					if k, ok := rat(ky); ok {
+						if r, ok := coef(x.X, d+1); ok {
+							return new(big.Rat).Mul(k, r), true
+						}
+					}
+				}
+			case token.QUO:
+				if oky {
+					if k, ok := rat(ky); ok && k.Sign() > 0 {
+						if r, ok := coef(x.X, d+1); ok {
+							return new(big.Rat).Quo(r, k), true
+						}
+					}
+				}
+			}
+		}
+		return nil, false
+	}
+	var wbad []string
+	wsites := 0
+	walkWithClosures(f, func(g *ssa.Function) {
+		for _, b := range g.Blocks {
+			for _, ins := range b.Instrs {
+				st, ok := ins.(*ssa.Store)
+				if !ok {
+					continue
+				}
+				fa, ok := st.Addr.(*ssa.FieldAddr)
+				if !ok || fieldNameOf(fa) != "WriteTimeout" {
+					continue
+				}
+				wsites++
+				r, ok := coef(st.Val, 0)
+				if !ok {
+					wbad = append(wbad, c.P.Pos(st.Pos())+": WriteTimeout is not a constant multiple of engine.timeout")
+				} else if r.Cmp(big.NewRat(1, 1)) < 0 {
+					wbad = append(wbad, fmt.Sprintf("%s: WriteTimeout = %s × engine.timeout is shorter than the longest route timeout: the connection is cut before that route's own deadline", c.P.Pos(st.Pos()), r.RatString()))
+				}
+			}
+		}
+	})
+	c.R.Check(len(wbad) == 0 && wsites >= 1, rule, "rest.(*engine).withTimeout#write-deadline", "http.Server.WriteTimeout is engine.timeout (the longest route timeout) times a factor ≥ 1", posOf(c, f), strings.Join(wbad, "; "), wbad, wsites)
 }
